@@ -4,11 +4,11 @@ import jobs as J
 
 PID = "C10"
 PROPS = "props/C10.v"
-GOTAB = ["ean.go", "codabar.go", "twooffive.go", "code128.go", "code39.go", "code93.go", "datamatrix.go", "qr.go", "gf.go"]
+GOTAB = ["ean.go", "codabar.go", "twooffive.go", "code128.go", "code39.go", "code93.go", "datamatrix.go", "qr.go", "gf.go", "aztec.go"]
 GOFILES = ["all.go"]
-EXTRACT = ["base", "utf8", "gf", "ean", "codabar", "twooffive", "code128", "code39", "code93", "datamatrix", "qr", "all"]
+EXTRACT = ["base", "utf8", "gf", "ean", "codabar", "twooffive", "code128", "code39", "code93", "datamatrix", "qr", "aztec", "all"]
 HANDLERS = ["all_extra.ml", "h_all.ml"]
-ENCODERS = ["ean", "codabar", "c128", "c128n", "c39", "c93", "tof", "qr", "dm"]
+ENCODERS = ["ean", "codabar", "c128", "c128n", "c39", "c93", "tof", "qr", "dm", "az"]
 
 RULE = ("every public encoder entry point (plain variants; WithColor variants are covered by C11): each byte value 0..255 alone and inside a "
         "valid context, runes around U+007F / U+00F0..U+00F5 / U+FFFD / invalid UTF-8, lengths 0, 1, capacity and capacity+1 (QR: every "
@@ -101,6 +101,15 @@ def cases(tier, rng):
         add("acc qr %d 2 %s" % (lvl, J.hx("".join(rng.choice(J.ALNUM) for _ in range(n)))))
         add("acc qr %d 3 %s" % (lvl, J.hx(J.rand_text(rng, n))))
         add("acc qr %d 0 %s" % (lvl, J.hx(J.rand_text(rng, n))))
+    # Aztec: every layer request -6..34 (incl. out of range and the extreme ints), percentages, payload sizes around
+    # the capacity of the requested configuration
+    for req in list(range(-6, 35)) + [-9223372036854775808, 9223372036854775807, -9223372036854775807]:
+        for n in (0, 1, 10, 60, 300, 1500, 1900, 3100) if tier == "thorough" else (0, 5, 60):
+            add("acc az %d %d %s" % (rng.choice([0, 23, 33, 100]), req, J.hx("A" * n)))
+    for pct in (0, 1, 23, 33, 50, 100, 200, 1000) if tier == "thorough" else (0, 33, 200):
+        for n in (0, 1, 50, 500, 1000, 1800, 1914, 1915, 3000, 3067, 3068) if tier == "thorough" else (0, 50, 700, 1914, 1915, 3067, 3068):
+            add("acc az %d 0 %s" % (pct, J.hx("A" * n)))
+            add("acc az %d 0 %s" % (pct, J.hx(b"\xe9" * (n // 2))))
     # sign characters in numeric mode (repaired defect), mixtures
     for t in ["+12", "-0", "+1", "1+2", "12a", "1 2", "０１２"]:
         for mode in (0, 1):
